@@ -605,6 +605,14 @@ def _main_check(prop, cfg, tier, seed, replay=None):
             log('gen: a translator module failed, but none whose output this property imports')
             ok_gen = True
     audit_hits = step_audit([cfg['props'], cfg['driver']])
+    # the correspondence runs on one host and one interpreter: check that the source the model stands for does not
+    # choose its behaviour by either (tools/lib/envaudit.py)
+    try:
+        from . import envaudit
+        env_hits, env_files = envaudit.audit(str(REPO), prop, str(VERIF / 'properties.jsonl'))
+    except Exception as e:
+        env_hits, env_files = ['environment audit failed: %r' % (e,)], []
+    ev_extra['environment_audit'] = {'files': len(env_files), 'hits': env_hits}
 
     targets = [cfg['props'][:-2] + '.vo', cfg['driver'][:-2] + '.vo']
     ok_make, make_out = step_make(targets)
@@ -625,6 +633,10 @@ def _main_check(prop, cfg, tier, seed, replay=None):
         proof_broken.append('translator (tools/gen) cannot express the current source: ' + gen_out[-800:])
     for h in audit_hits:
         proof_broken.append('audit: ' + h)
+    for h in env_hits:
+        proof_broken.append('environment audit: ' + h + ' — the library chooses its behaviour by the host or the '
+                            'interpreter; the correspondence runs on one of each, the other arm is not shown to '
+                            'satisfy the property')
     for name in prove['failed']:
         proof_broken.append('theorem ' + name + ' no longer checks')
     if exe is None:
